@@ -3,8 +3,8 @@
    split_direct is the direct splitter of Model/ScriptX.v ("split at LF, drop one CR before it"); that it equals the
    regex-based split_lines of the shared model (`\r?\n` through the generic matcher) is checked by the correspondence on
    every run, not proved.  parse_lines = parse_script after line splitting; llines = the logical lines. *)
-From BS Require Import Model.Base Model.Regex Model.Num Model.ExprParser Model.Script Model.ScriptX
-  Proofs.ScriptFacts Proofs.C06 Proofs.C10.
+From BS Require Import Model.Base Model.Regex Model.Num Model.ExprParser Model.Script Model.ScriptX Model.Lower
+  Gen.Unicode Proofs.ScriptFacts Proofs.C06 Proofs.C10 Proofs.C10ws.
 
 (* ---- LF versus CRLF: both texts have the same lines ---- *)
 Theorem C10_crlf : forall lines, lines <> [] -> Forall no_lf lines -> Forall (fun l => ends_cr l = false) lines ->
@@ -64,10 +64,32 @@ Theorem C10_continuation : forall p1 s1 mids pl ix,
 Proof. exact continuation_many. Qed.
 Print Assumptions C10_continuation.
 
-(* C10_ws_tokens_partial — NOT proved: "breaking a line at any point where a space is allowed / changing indentation or
-   trailing whitespace yields the same statement" needs whitespace-insensitivity of every statement regex and of the
-   expression lexer; it is checked metamorphically by the direct oracle (harness/c10_oracle.py) at every inter-token
-   gap.  C10_stateless: parse_script / parse_expression of the model are Gallina functions, so determinism and absence
+(* ---- indentation / trailing whitespace of the keyword-only statements (statement classification of the shared model:
+   Model/Lower.v `classify`, with pstep ps n line = sbind (classify n line) (kstep ps n line) by Proofs/C07eq.v).
+   `white w`: every character of w is `\s` for the regex engine (no restriction to blanks/tabs; a line of parse_script
+   never contains LF anyway).  keyword_lines = else: endif endwhile endfor endfunction break continue with their kinds.
+   Proved through the REGENERATED regexes: the statement's own `^\s*kw\s*$` matches the padded text (the engine is complete
+   for look-ahead free regexes and never runs out of fuel: Proofs/RegexComplete.v) and every EARLIER regex of the cascade
+   does not match it (it requires a non-space character that is not in the text). ---- *)
+Theorem C10_ws_keyword_lines : forall l k, In (l, k) keyword_lines ->
+  forall n ws1 ws2, white ws1 -> white ws2 ->
+  Lower.classify n (ws1 ++ l ++ ws2) = Lower.classify n l /\ Lower.classify n l = ROk k.
+Proof. exact ws_keyword_lines. Qed.
+Print Assumptions C10_ws_keyword_lines.
+
+(* also whitespace before the colon of `else:` *)
+Theorem C10_ws_else_gap : forall n ws1 ws2 ws3, white ws1 -> white ws2 -> white ws3 ->
+  Lower.classify n (ws1 ++ U "else" ++ ws2 ++ U ":" ++ ws3) = ROk KElse.
+Proof. exact classify_else_gap. Qed.
+Print Assumptions C10_ws_else_gap.
+
+(* C10_ws_tokens_partial — the FULL clause "breaking a line at any point where a space is allowed / changing indentation or
+   trailing whitespace yields the same statement" needs whitespace-insensitivity of EVERY statement regex and of the
+   expression lexer.  PROVED: the keyword-only statements (C10_ws_keyword_lines, C10_ws_else_gap).
+   NOT proved (oracle only): statements that carry an expression or a name (assignment, function, if/elif/while/for, label,
+   jump/jumpif, return, include) and whitespace between the tokens of an expression; these are checked metamorphically by
+   the direct oracle (harness/c10_oracle.py) at every inter-token gap.
+   C10_stateless: parse_script / parse_expression of the model are Gallina functions, so determinism and absence
    of state between calls are definitional; on the implementation they are tested by interleaved repeated calls. *)
 
 (* ---- non-vacuity ---- *)
@@ -89,3 +111,16 @@ Example C10_ex_same_model :
   exists s, parse_lines [U "if a:"; U "  b = 1 + \00005c"; U "   2"; U "endif"] 1 = ROk s /\
             parse_lines [U "# c"; U "if a:"; U ""; U "  b = 1 + \00005c"; U "  # inside"; U "   2"; U "endif"; U ""] 5 = ROk s /\ length s = 3.
 Proof. eexists. split; [vm_compute; reflexivity | split; [vm_compute; reflexivity | reflexivity]]. Qed.
+
+Example C10_ex_ws_keyword :
+  white (U "   ") /\ white (U "  \000009") /\ In (U "else:", KElse) keyword_lines /\
+  Lower.classify 1 (U "   else:  \000009") = ROk KElse /\ Lower.classify 1 (U "\000009else  :") = ROk KElse /\
+  Lower.classify 7 (U "    endfunction ") = ROk KFnEnd /\ Lower.classify 7 (U "  continue\00000c") = ROk KContinue /\
+  Lower.classify 1 (U " else: x") <> ROk KElse.
+Proof.
+  repeat split; try (vm_compute; reflexivity).
+  - intros c I. vm_compute in I. repeat (destruct I as [<-|I]; [reflexivity|]). contradiction.
+  - intros c I. vm_compute in I. repeat (destruct I as [<-|I]; [reflexivity|]). contradiction.
+  - left. reflexivity.
+  - vm_compute. discriminate.
+Qed.
